@@ -475,7 +475,7 @@ func RuleE3i(c *Ctx) {
 			}
 			n++
 			perFn[c.P.DeclName(fd)]++
-			key := fmt.Sprintf("%s:memo(%s)#%d", c.P.DeclName(fd), types.ExprString(ix.X), perFn[c.P.DeclName(fd)])
+			key := fmt.Sprintf("%s:memo#%d", c.P.DeclName(fd), perFn[c.P.DeclName(fd)])
 			fp := &footprint{c: c, seenFn: map[*types.Func]bool{}}
 			valueLeaves := fp.ofExpr(pk, cf, cf.Resolve(valueExpr), 0)
 			fp2 := &footprint{c: c, seenFn: map[*types.Func]bool{}, keyMode: true}
